@@ -1174,7 +1174,9 @@ def gen_vel_meta(rng, day0):
     p2 = (p1[1], (day0 + timedelta(days=2000, seconds=3600)).isoformat())
     vel = dict(interval=[[day0, day0 + timedelta(days=2000, seconds=3600)]])
     comps = rng.sample(["x", "y", "z", "e", "n", "u"], rng.randrange(1, 5))
-    for key in rng.sample(["trend", "bias", "amp_annual", "phase_annual", "rms", "offset", "amp_semiannual"], rng.randrange(1, 5)):
+    if rng.random() < 0.6:
+        comps = sorted(set(comps) | {"y", "z"})
+    for key in ["trend"] + rng.sample(["bias", "amp_annual", "phase_annual", "rms", "offset", "amp_semiannual"], rng.randrange(0, 4)):
         vel[key] = dict()
         for c_ in comps:
             if key == "offset":
@@ -1183,7 +1185,7 @@ def gen_vel_meta(rng, day0):
                 vel[key][c_] = dict([(p1, val()), (p2, val())])
             else:
                 vel[key][c_] = val()
-        if key in ("trend", "bias", "amp_annual") and rng.random() < 0.6:
+        if key in ("trend", "bias", "amp_annual") and rng.random() < 0.7:
             vel[key + "_sigma"] = dict()
             for c_ in comps:
                 v_ = vel[key][c_]
@@ -1561,11 +1563,14 @@ def run_csv(ctx, t, acc, n_sets):
             acc.direct.append((f"csv_: {n} observations given, {len(lines) - 1} data lines written", dict(rep0, written=lines[:6])))
             continue
         data = None
+        allnan = set()
         try:
             with warnings.catch_warnings():
                 warnings.simplefilter("ignore")
                 data = parsers.parse_file("csv_", out).data
-            if any(len(np.atleast_1d(data.get(CSV_HEADER.get(nm, nm), []))) != n for nm in given):
+            # the parser drops columns without any number (df.dropna(axis="columns", how="all")): an all-NaN column is not read back
+            allnan = {nm for nm, kd in zip(given, kinds) if kd == "f" and all(math.isnan(float(x)) for x in cols[nm])}
+            if any(len(np.atleast_1d(data.get(CSV_HEADER.get(nm, nm), []))) != n for nm in given if nm not in allnan):
                 frec["parser_error"] = f"parser returned columns {list(data)} with lengths {[len(v) for v in data.values()]} for {n} written rows"
                 data = None
         except Exception as e:
@@ -1577,13 +1582,14 @@ def run_csv(ctx, t, acc, n_sets):
                 vals.append(v_s(x) if kd == "s" else v_i(int(x)) if kd == "i" else v_f(x))
                 info[name] = str(x) if kd == "s" else float(x)
             obs = ["ONone"] * len(kinds) if data is None else [
-                (o_s(data[CSV_HEADER.get(nm, nm)][j]) if kd == "s" else o_f(data[CSV_HEADER.get(nm, nm)][j])) for nm, kd in zip(given, kinds)]
+                ("ONone" if (nm in allnan and CSV_HEADER.get(nm, nm) not in data) else
+                 o_s(data[CSV_HEADER.get(nm, nm)][j]) if kd == "s" else o_f(data[CSV_HEADER.get(nm, nm)][j])) for nm, kd in zip(given, kinds)]
             rep = dict(rep0, row_type="csv_row", written_line=lines[1 + j], input=info, dataset_row=i)
             if data is None:
                 cvs_row = emit.lst(["CSkip"] * len(kinds))
             else:
                 rep["parsed"] = obs
-                cvs_row = emit.lst(cvs)
+                cvs_row = emit.lst("CSkip" if o_ == "ONone" else c_ for c_, o_ in zip(cvs, obs))
             acc.add("check_list_row_t", emit.pair(lay, cvs_row, emit.lst(vals), emit.s(lines[1 + j]), emit.lst(obs)), rep, frec)
             ctx.case(("csv", lines[1 + j]), nontrivial=n_sta > 1, sample=rep if j == 0 and k == 0 else None)
 
